@@ -5,6 +5,7 @@ package main
 import (
 	"strings"
 
+	"github.com/cinar/indicator/v2/asset"
 	"github.com/cinar/indicator/v2/strategy"
 	"github.com/cinar/indicator/v2/strategy/decorator"
 )
@@ -68,6 +69,13 @@ func mkCompound(name string, wrap wrapFn, subNames ...string) Pipe {
 }
 
 func registerCompounds() {
+	// auxiliary pipelines used as oracles by the checks (not library pipelines under test)
+	register(Pipe{Name: "aux.Closings", Class: "aux", Inputs: snapIn, Params: ps(), Default: cfgOf(),
+		Make: func(cfg []int) Inst {
+			return Inst{ComputeS: func(in <-chan *asset.Snapshot) []Out {
+				return []Out{OutOf("close", asset.SnapshotsAsClosings(in), ident)}
+			}}
+		}})
 	and := func(s []strategy.Strategy) strategy.Strategy { return strategy.NewAndStrategy("and", s...) }
 	or := func(s []strategy.Strategy) strategy.Strategy { return strategy.NewOrStrategy("or", s...) }
 	maj := func(s []strategy.Strategy) strategy.Strategy { return strategy.NewMajorityStrategyWith("majority", s) }
